@@ -1092,6 +1092,25 @@ def inline_new_constants(trees: dict[str, ast.Module], base: dict[str, Any]) -> 
 
 
 # ------------------------------------------------------------------ driver (N1-N3; N4 runs after indexing, see aliases.py)
+def to_augassign(tree: ast.Module) -> int:
+    """N22: `T = T + e` (also -, *, |, &) with T a plain name or attribute chain becomes `T += e`."""
+    n = 0
+
+    def simple(t: ast.expr) -> bool:
+        return isinstance(t, ast.Name) or (isinstance(t, ast.Attribute) and simple(t.value))
+
+    for node in ast.walk(tree):
+        for field in ("body", "orelse", "finalbody"):
+            blk = getattr(node, field, None)
+            if not isinstance(blk, list):
+                continue
+            for i, st in enumerate(blk):
+                if isinstance(st, ast.Assign) and len(st.targets) == 1 and simple(st.targets[0]) and isinstance(st.value, ast.BinOp) and isinstance(st.value.op, (ast.Add, ast.Sub, ast.Mult, ast.BitOr, ast.BitAnd)) and ast.dump(st.value.left) == ast.dump(st.targets[0]).replace("Store()", "Load()"):
+                    blk[i] = ast.copy_location(ast.AugAssign(target=st.targets[0], op=st.value.op, value=st.value.right), st)
+                    n += 1
+    return n
+
+
 def drop_dead_statements(tree: ast.Module) -> int:
     """N21: statements that follow a raise / return / break / continue in the same block can never run (the inliner
     leaves such a tail behind when a helper ends in a raise); they are dropped."""
@@ -1182,8 +1201,12 @@ def normalize_trees(trees: dict[str, ast.Module]) -> dict[str, Any]:
     def n18() -> None:
         report["merged_handlers"] = sum(merge_handlers(t) for t in trees.values())
 
+    def n22() -> None:
+        report["augmented_assignments"] = sum(to_augassign(t) for t in trees.values())
+
     guarded("N18 handler merge", n18)
     guarded("N12 conditional expressions", n12)
+    guarded("N22 augmented assignments", n22)
     guarded("N14 literal loops", n14)
     guarded("N3 walrus", n3)
     guarded("N5 extend", n5)
